@@ -263,6 +263,51 @@ def certReport (iter : CertInfo) (shown : List (List Nat)) : List (Option (List 
 def certReportUnsorted (iter : CertInfo) (shown : List (List Nat)) : List (Option (List Nat)) :=
   shown.map (certLookup (certMapUnsorted iter))
 
+/-! ### 7. the thread-local print context (`SERIALIZATION_CONTEXT`, process_state.rs:25-29, 1180-1184)
+
+  `Address`'s `Display`/`Serialize` (every crash address, module base, frame offset of the JSON and
+  text reports) reads the pointer width from a THREAD-LOCAL that `print`, `print_brief` and
+  `print_json` fill with `set_print_context` before writing anything. What a print shows is
+  therefore a function of the thread's history unless every print overwrites the context. -/
+
+/-- `PointerWidth` as far as `Address` cares: 32, 64, anything else = `Unknown` -/
+abbrev Width := Nat
+
+/-- `set_print_context` (current code): `ctx.pointer_width = Some(self.system_info.cpu.pointer_width())` -/
+def setCtx (_ctx : Option Width) (w : Width) : Option Width := some w
+
+/-- the seeded variant C13-2b: `pointer_width.get_or_insert_with(..)` — only the first print on a
+    thread fills the context -/
+def setCtxOnce (ctx : Option Width) (w : Width) : Option Width :=
+  match ctx with
+  | some v => some v
+  | none => some w
+
+/-- number of characters `Address::fmt` writes for a small address: `{:#010x}` under `Bits32`,
+    `{:#018x}` otherwise (`Bits64`, `Unknown`, or no context at all) -/
+def addrChars (ctx : Option Width) : Nat := if ctx = some 32 then 10 else 18
+
+/-- the prints a thread performs one after the other (the pointer width of each printed state),
+    starting from the context `ctx`: the address width each of them shows -/
+def printSeq (set : Option Width → Width → Option Width) (ctx : Option Width) : List Width → List Nat
+  | [] => []
+  | w :: ws => addrChars (set ctx w) :: printSeq set (set ctx w) ws
+
+/-! ### 8. register heuristics of a possible bit flip (`calculate_heuristics`, process_state.rs:399-424)
+
+  `for (_, addr) in context.valid_registers()` — for a context with validity `Some(set)` this
+  iterates the validity `HashSet` — counting registers near the candidate address and looking for a
+  poison pattern. The loop body only increments a counter and sets a flag. -/
+
+/-- one iteration: `near v` = `should_calculate_nearby_registers && abs_diff(addr, v) <= 512`,
+    `poison v` = `is_repeated(v) && (v & 0xff) ∈ {0x2b, …}`; state = (`nearby_registers`, `poison_registers`) -/
+def heurStep (near poison : Nat → Bool) (acc : Nat × Bool) (v : Nat) : Nat × Bool :=
+  (if near v then acc.1 + 1 else acc.1, if !acc.2 && poison v then true else acc.2)
+
+/-- the loop over the register values in ITERATION order -/
+def heuristics (near poison : Nat → Bool) (vals : List Nat) : Nat × Bool :=
+  vals.foldl (heurStep near poison) (0, false)
+
 /-! ### line protocol
   `det model lim:<E,..|-> mods:<hexleaf=res,..|-> done:<i,i,..|-> thr:<i.i.i|->/<tid,tid,..|-> fixed:<hex,..|-> valid:<hex,..|-> jvalid:<hex,..|-> certs:<hexcert=hexmod+hexmod..,..|-> cshown:<hexname,..|->`
       E = `<hexname>/<rest>`; lists in the order the real containers were iterated / the real
@@ -272,6 +317,8 @@ def certReportUnsorted (iter : CertInfo) (shown : List (List Nat)) : List (Optio
   `det cfi [cpu:<X86|AMD64|ARM|ARM64_OLD|ARM64|PPC|PPC64|MIPS|SPARC>] init:<r=v+|r=v-,..|-> rules:<hexlabel=v|hexlabel=-,..|->`
       (rules in any order; r = position in the CPU's `REGISTERS`; no `cpu:` field = ARM64)
       -> `regs:<r=v+|r=v-,..>` for the registers that are valid or were touched
+  `det ctx widths:<32|64|0,..>`   pointer widths of the states one thread prints, in order
+      -> `chars:<10|18,..>` characters of the crash address each print shows
 -/
 open Proto
 
@@ -385,6 +432,14 @@ def handle (_engine : String) (args : List String) : String :=
     match field "cpu:" cpuName, field "init:" init, field "rules:" rules with
     | some cpuName, some init, some rules => handleCfi cpuName init rules
     | _, _, _ => "bad-op"
+  | ["ctx", ws] =>
+    -- `det ctx widths:<32|64|0,..>`: the prints of one thread, in order -> `chars:<10|18,..>`
+    match field "widths:" ws with
+    | some ws =>
+      match allSome ((listOf ws ",").map optNat) with
+      | some ws => "chars:" ++ joinWith "," ((printSeq setCtx none ws).map toString)
+      | none => "bad-op"
+    | none => "bad-op"
   | _ => "bad-op"
 
 end MdModel.Det
